@@ -33,8 +33,9 @@ MODULES = ["ESV.Props.C05"]
 THEOREMS = [
     "ESV.Beh.check_sound", "ESV.Beh.validate_sound",
     "ESV.C05.cycle_detected_iff", "ESV.C05.order_total", "ESV.C05.order_topological_counterexample",
+    "ESV.C05.witness_acyclic", "ESV.C05.witness_order", "ESV.C05.witness_does_not_compile",
     "ESV.C05.order_topological_partial", "ESV.C05.compiles_of_topological", "ESV.C05.all_macros_compile_partial",
-    "ESV.C05.witness_does_not_compile", "ESV.C05.topoOrder_topological", "ESV.C05.topoOrder_complete",
+    "ESV.C05.topoOrder_topological", "ESV.C05.topoOrder_complete",
     "ESV.C05.resolve_relative", "ESV.C05.resolve_absolute", "ESV.C05.resolve_lookup_first_match",
     "ESV.C05.resolve_lookup_none", "ESV.C05.resolve_rejects_dot_components",
 ]
@@ -374,7 +375,8 @@ class Eval:
                     if rep.get("order") != e["order"]:
                         self.ties.append(("correspondence C05/order: macro_resolution_order differs from the Lean model", {"file": f, "impl": e["order"], "model": rep}))
                     comp = rep.get("compile", {})
-                    self.stats["guard_" + str(rep.get("guard"))] += 1
+                    # how tight the guard of order_topological_partial is on the generated inputs (model side)
+                    self.stats[f"guard_{rep.get('guard')}_model_compile_{'ok' if 'ok' in comp else 'fails'}"] += 1
                     m = NOT_FOUND.match(res.get("msg") or "") if res.get("error") == "SsbCompilerError" else None
                     if fe is e:
                         if comp.get("err") == "SsbCompilerError" and "name" in comp:
